@@ -183,6 +183,9 @@ class Ctx:
 
     def associate(self, ae, port=11112, handlers=None, **kw):
         hh = self.rec_handlers() + list(handlers or [])
+        # AE.associate() takes the requestor's maximum PDU length from its own `max_pdu` argument (default 16382),
+        # not from AE.maximum_pdu_size: pass the configured value on so that make_ae(max_pdu=...) means what it says
+        kw.setdefault("max_pdu", ae.maximum_pdu_size)
         return ae.associate("127.0.0.1", port, evt_handlers=hh, **kw)
 
     def spawn(self, fn, name):
